@@ -215,6 +215,60 @@ def run(R):
                        "(status, length, fnv of bytes)" % (c[0], c[1], c[2], " len=%d" % c[3] if c[0] == "read" else "", o, want))
             break
     mism = kdf.diff_streams(impl, model)
+    # phase 3 (implementation only; an allocation failure is an environment fault the model does not have): string reads
+    # whose k-th allocation fails must fail, leave no block behind and must not disturb later reads (cache of 4 pages)
+    nfault = 0
+    if not fail:
+        l3, m3, L3s = [], [], []
+        for li in range(2 if R.tier == "quick" else 12):
+            # a diskdump of 24..40 stored frames (raw and zlib), NULs at a few places, a page cache of 4 entries
+            L = Layout(R.rng, R.path("c12-fault-%d.dump" % li), kind="diskdump")
+            n = R.rng.randint(24, 40)
+            L.segs = [dict(pfn=2, npages=n, voff=0)]
+            L.present = {2 + i: 0 for i in range(n)}
+            L.nuls = [R.rng.randrange(2 * L.ps, (2 + n) * L.ps) for _ in range(6)]
+            L.write()
+            L.oracle = {(1, pf * L.ps): dumpgen.page_bytes(pf, L.ps, L.nuls) for pf in L.present}
+            L.oracle.update({(1, pf * L.ps): "nodata" for pf in (0, 1, 2 + n, 3 + n)})
+            L3s.append(L)
+            allpages = sorted(k for k, v in L.oracle.items() if not isinstance(v, str))
+            pages = R.rng.sample(allpages, 12)
+            l3 += ["open %s %d" % (L.path, L.ps), "cache 4"]; m3 += [None] * 2
+            for k, (a, p) in enumerate(pages):
+                l3.append("strf %d %d %d" % (a, p + R.rng.choice([0, 5, L.ps - 3]), 1 + k % 3 // 2)); m3.append((li, "strf", a, p))
+            for (a, p) in allpages[::-1]:
+                l3.append("read %d %d %d" % (a, p, L.ps)); m3.append((li, "read", a, p))
+        rc3, out3, err3 = R.run_harness(exe, stdin_text="\n".join(l3) + "\n")
+        o3 = kdf.obs(out3)
+        c3 = [(l, m) for l, m in zip(l3, m3) if m]
+        if rc3 != 0 or len(o3) != len(c3):
+            fail3 = "harness stopped after %d of %d fault-injection cases (rc=%s) at '%s': %s" % (len(o3), len(c3), rc3, c3[min(len(o3), len(c3) - 1)][0], err3.strip()[:500])
+        else:
+            fail3 = None
+            for (l, (li, typ, a, p)), o in zip(c3, o3):
+                L = L3s[li]
+                if typ == "strf":
+                    t = o.split()
+                    nf = int(t[-1].split("=")[1])
+                    nfault += nf > 0
+                    if "LEAK" in o:
+                        fail3 = "'%s' (allocation failure injected: %d): %s -- a block allocated by the call is still allocated" % (l, nf, o)
+                    elif nf and t[0] == "ok":
+                        fail3 = "'%s' reports success although an allocation of the call failed: %s" % (l, o)
+                    elif not nf:
+                        st, data = L.expect_str(a, int(l.split()[2]))
+                        want = "ok %d %d" % (len(data), dumpgen.fnv(data)) if st == "ok" else "%s - -" % st
+                        if st is not None and " ".join(t[:3]) != want:
+                            fail3 = "'%s' answered '%s', single-page reads give '%s'" % (l, o, want)
+                else:
+                    want = "ok %d %d" % (L.ps, dumpgen.fnv(L.oracle[(a, p)]))
+                    if o.split(" C16:")[0] != want:
+                        fail3 = ("'%s' after string reads that failed for lack of memory answered '%s'; the page is present (single-page read of a "
+                                 "fresh context: '%s')" % (l, o, want))
+                if fail3:
+                    break
+        if fail3:
+            R.violation(fail3, dict(stream="read/fault-injection", lines=l3[:400], stderr=err3[-1500:], broken_theorems=proof["broken"]))
     if fail:
         i, msg = fail
         li, c = cases[i]
@@ -240,7 +294,7 @@ def run(R):
                rule="ELF dumps with random page runs and holes; reads at starts/lengths enumerated relative to run and page boundaries "
                     "(-1,0,+1, zero length, several pages then a hole) in all three address spaces; strings of every small length at every "
                     "offset before a page end, strings running into a hole; non-trivial = distinct non-zero-length cases",
-               traces_validated_against_impl=len(impl), correspondence_first_diff=mism, case_kinds=kinds, miss_statuses=misses,
+               traces_validated_against_impl=len(impl), alloc_faults_fired=nfault, correspondence_first_diff=mism, case_kinds=kinds, miss_statuses=misses,
                samples=[dict(case=cases[i][1], observed=impl[i]) for i in (0, len(cases) // 2, len(cases) - 1) if i < len(impl)])
     return "proof", cov, ["page size 4096 (ELF x86_64); range does not wrap the address space",
                           "a page fetch returns a whole page or a non-OK status (OracleSound); what it returns is C01's subject"]
